@@ -65,6 +65,7 @@ type attempt struct {
 	ReturnedWhileLocked  bool     `json:"returned_while_registry_lock_held,omitempty"`   // busyregistry: the call came back before the monitor let go of the lock
 	CallsRegLeft         int      `json:"burst_calls_registration_left_at_return,omitempty"`
 	RegLeftWitness       string   `json:"burst_first_registration_left_at_return,omitempty"`
+	SendState            string   `json:"client_send_state_at_return,omitempty"` // answeredstalled*: what the client's own Write / Flush was doing when the call returned
 }
 
 // peerFlags is the peer-side state of one attempt (one mutex).
